@@ -356,6 +356,11 @@ func (rs *RoachSource) StartRun() error {
 					totalBytes = 0
 				}
 				rs.nextBlock <- block
+				if block.err != nil {
+					// The core loop ends the source on an error block without closing abortSelf, and a later Stop
+					// finds the source inactive: nobody would ever tell this goroutine to go. Close up now.
+					return
+				}
 			}
 		}
 	}()
